@@ -43,9 +43,9 @@ ASSUMPTIONS = [
     "the abstract->builtin mapping is the documented one (Sequence/MutableSequence/Collection/Iterable->list, Set/MutableSet->set, Mapping/MutableMapping->dict, Hashable->str)",
 ]
 EXHAUSTIVE = {"quick": True, "thorough": True}
-PLAN = {"quick": dict(rewraps=1500), "thorough": dict(rewraps=60000)}
-FLOORS = {"quick": {"judged": 12000, "predicates": 55, "objects": 330, "spelling_groups_checked": 30, "stability_checked": 12000, "origin_instantiable_checked": 60},
-          "thorough": {"judged": 80000, "predicates": 55, "objects": 330, "spelling_groups_checked": 30, "stability_checked": 80000, "origin_instantiable_checked": 60}}
+PLAN = {"quick": dict(rewraps=1500, programs=2000), "thorough": dict(rewraps=60000, programs=20000)}
+FLOORS = {"quick": {"judged": 100000, "program_annotations": 8000, "predicates": 55, "objects": 330, "spelling_groups_checked": 30, "stability_checked": 100000, "origin_instantiable_checked": 60},
+          "thorough": {"judged": 1500000, "program_annotations": 150000, "predicates": 55, "objects": 330, "spelling_groups_checked": 30, "stability_checked": 1500000, "origin_instantiable_checked": 60}}
 
 T = typing.TypeVar("T")
 TB = typing.TypeVar("TB", bound=int)
@@ -401,6 +401,8 @@ def o_name(x):
     if is_cls(x) and x.__module__ != "typing":
         return x.__name__
     n = getattr(x, "_name", None)
+    if typing.get_origin(x) in (typing.Union, types.UnionType):
+        return NotImplemented  # Optional[X] == X | None share equality-keyed cache entries (finding D15)
     if n and typing.get_origin(x) is not None and not isinstance(x, types.GenericAlias):
         return n
     if isinstance(x, types.GenericAlias):
@@ -466,7 +468,9 @@ def spelling_groups():
 
 def same_answer(a, b):
     try:
-        return a == b and type(a) is type(b)
+        if isinstance(a, (bool, int, str, float)) or isinstance(b, (bool, int, str, float)) or a is None or b is None:
+            return a == b and type(a) is type(b)
+        return a == b  # type objects: Optional[X] and X | None are equal answers (typing's own equality)
     except Exception:  # noqa: BLE001
         return a is b
 
@@ -509,7 +513,9 @@ def judge_type(sh, pname, x, label, oracle):
         pred.cache_clear()
     cold = call(pred, x)
     if not (again[0] == "ok" and cold[0] == "ok" and same_answer(again[1], got[1]) and same_answer(cold[1], got[1])):
-        sh.violation("predicate-unstable", predicate=pname, obj=label, first=short(got, 100), warm=short(again, 100), after_clear=short(cold, 100))
+        sh.violation("predicate-unstable", predicate=pname, obj=label, first=short(got, 100), warm=short(again, 100), after_clear=short(cold, 100),
+                     union_object=typing.get_origin(resolve(x) if not is_cls(resolve(x)) else x) in (typing.Union, types.UnionType)
+                     or typing.get_origin(x) in (typing.Union, types.UnionType))
 
 
 def instances():
@@ -709,3 +715,28 @@ def run_shard(sh):
         judge_type(sh, pname, y, "+".join(chain) + "(" + label + ")", TYPE_PREDICATES[pname])
 
     sh.run_cases(n, case)
+
+    # in-situ part: every annotation object of synthesised programs (the objects the dispatch tables really see:
+    # user classes of every flavour, enums, nested generics in both spellings, unions, aliases, NewTypes)
+    from vlib import universe as U
+    from vlib.workload import make_program
+
+    nprog = per_shard(plan["programs"], sh.nshards, sh.shard)
+
+    def prog_case(i):
+        rng = case_rng(sh, 10_000_000 + i)
+        prog, gen, roots = make_program(rng, U.Opts(depth=rng.choice([1, 2, 3])), nroots=2)
+        try:
+            seen = set()
+            for r in roots:
+                for spec in r.walk():
+                    if spec.kind == "rec" or isinstance(spec.t, str) or id(spec) in seen:
+                        continue
+                    seen.add(id(spec))
+                    sh.count("program_annotations")
+                    for pname in rng.sample(list(TYPE_PREDICATES), 12):
+                        judge_type(sh, pname, spec.t, "program:" + spec.kind + ":" + spec.src[:60], TYPE_PREDICATES[pname])
+        finally:
+            prog.drop()
+
+    sh.run_cases(nprog, prog_case)
